@@ -54,8 +54,12 @@ class CFG:
         self.exc = self._new("exc", None)
         self._ast2node: Dict[int, int] = {}
         body = func.body if hasattr(func, "body") else []
-        outs = self._block(body, [(self.entry.id, None)], [], [], [])
-        for (n, lab) in outs:
+        top_brk: List[Tuple[int, Label]] = []
+        top_cont: List[Tuple[int, Label]] = []
+        outs = self._block(body, [(self.entry.id, None)], top_brk, top_cont, [])
+        # a synthetic body (e.g. one loop iteration) may break/continue at top level:
+        # both leave the body normally; the kind of exit is visible from the last statement.
+        for (n, lab) in outs + top_brk + top_cont:
             self._edge(n, self.ret.id, lab)
         self._dom: Optional[Dict[int, Set[int]]] = None
         self._pdom: Optional[Dict[int, Set[int]]] = None
